@@ -95,8 +95,12 @@ def gen_span_lock(repo):
     g = re.search(GUARD % 'mu_', e)
     t = re.search(r'\bhas_ended_\b', e)
     s = re.search(r'\bhas_ended_\s*=\s*true\s*;', e)
-    o = re.search(r'OnEnd\s*\(\s*std::move\s*\(\s*recordable_\s*\)\s*\)', e)
-    order = bool(g and t and s and o) and g.start() < t.start() <= s.start() < o.start() and len(re.findall(r'OnEnd\s*\(', e)) == 1
+    # ONE hand-over `OnEnd(...)` after the latch, and `recordable_` is moved out (directly into the call, or into a local that
+    # is handed over) after the latch as well - how the argument is spelled is not part of the lock discipline
+    o = re.search(r'OnEnd\s*\(', e)
+    mv = [m.start() for m in re.finditer(r'std::move\s*\(\s*recordable_\s*\)', e)]
+    order = bool(g and t and s and o and mv) and g.start() < t.start() <= s.start() < o.start() and len(re.findall(r'OnEnd\s*\(', e)) == 1 \
+        and all(s.start() < p for p in mv)
     for must in ('SetAttribute', 'AddEvent', 'SetStatus', 'UpdateName', 'End', 'IsRecording'):
         if must not in names:
             raise X.ExtractError(f'{rel}: Span::{must} does not use recordable_ / has_ended_ any more')
@@ -146,6 +150,11 @@ def gen_obsreg_lock(repo):
         body = ob[k:e + 1]
         calls = [m.start() for m in re.finditer(r'->\s*callback\s*\(', ob)]
         inloop = bool(calls) and all(k < c < e for c in calls) and loop.group(1) + '->callback' in re.sub(r'\s+', '', body)
+    if g and loop and g.start() < loop.start() and depth_at(ob, g.start()) == 1 and not inloop:
+        # guard and loop are where they were, but the invocation is not written out inside the loop body any more (a helper, a
+        # template): the registry schedules under the scheduler observe directly that every callback runs with callbacks_m_
+        # held - a change of shape; the committed fact is kept and the replay of every schedule decides
+        raise X.ShapeChanged('ObservableRegistry::Observe: the callback invocation is not written inside the loop over callbacks_ any more')
     erase = all(re.search(r'callbacks_\.erase\s*\(', fns[n]) for n in ('RemoveCallback', 'CleanupCallback'))
     push = bool(re.search(r'callbacks_\.(push_back|emplace_back)\s*\(', fns['AddCallback']))
     b2l = lambda v: 'true' if v else 'false'
